@@ -31,7 +31,7 @@ RULE = (
 STATE_MEASURE = "distinct (durable state, volatile config) pairs of the reference model at operation time"
 COMPONENTS = {
     "real": ["cspuz.configuration (at import and via Config(infer_from_env))", "cspuz.solver._get_backend*", "cspuz.graph (use_graph_primitive is None branches)", "the five sugar_like._call_solver entry points", "Z3Backend.__init__ lazy import"],
-    "stub": ["os.environ contents", "importability of cspuz_core / enigma_csp / pycsugar / z3 (sys.modules)", "recording fakes: extension solver() functions, subprocess.run, z3.Solver.check wrapper", "Sugar-protocol peer answering the recorded calls"],
+    "stub": ["os.environ contents", "importability of cspuz_core / enigma_csp / pycsugar / z3 (sys.modules entries and a sys.meta_path finder: importable, absent, broken install, lazy first import)", "recording fakes: extension solver() functions, subprocess.run, z3.Solver.check wrapper", "Sugar-protocol peer answering the recorded calls"],
 }
 ASSUMPTIONS = [
     "only unambiguous boolean spellings are used: true/false/1/0 in any case must parse; '', '2', 'tru', 'maybe' must be rejected; yes/no/on/off are never generated",
